@@ -131,9 +131,10 @@ func (s *Protocol) Invoke(ctx context.Context, req []byte) (rsp []byte) {
 				err = s.dispatcher.Dispatch(ctx, s.serverImp, &reqPackage, &rspPackage, s.withContext)
 				// execute post server filters
 				for i, v := range s.app.allFilters.postSfs {
-					err = v(ctx, s.dispatcher.Dispatch, s.serverImp, &reqPackage, &rspPackage, s.withContext)
-					if err != nil {
-						TLOG.Errorf("Post filter error, No.%v, err: %v", i, err)
+					// keep the servant's error: a post filter must not turn a failed call into a success
+					filterErr := v(ctx, s.dispatcher.Dispatch, s.serverImp, &reqPackage, &rspPackage, s.withContext)
+					if filterErr != nil {
+						TLOG.Errorf("Post filter error, No.%v, err: %v", i, filterErr)
 					}
 				}
 			}
